@@ -582,19 +582,25 @@ theorem c15_fallback_decision (post : Probe) (get : List Char → Probe) (url : 
   cases hv : validUrl httpUrlPrefixes url <;> cases hw : works postStatuses postTypes post <;>
     cases hs : validUrl sseUrlPrefixes (sseFallbackUrl url) <;> simp [eq_comm]
 
-/-- non-vacuity: the probe URLs of `http://example.com/mcp` (note what `rstrip("/mcp")` does to
-`.com`), a server that answers the POST with 202 + JSON and only the third GET with an event stream -/
-example : probeUrls "http://example.com/mcp".toList
-      = ["http://example.com/sse".toList, "http://example.co/sse".toList, "http://example.com/mcp/sse".toList]
-    ∧ detect (.resp 202 "application/json; charset=utf-8".toList)
-        (fun u => if u = "http://example.com/mcp/sse".toList then .resp 200 "text/event-stream".toList else .resp 404 [])
-        "http://example.com/mcp".toList = ("both", 3)
-    ∧ detect .exc (fun _ => .resp 200 "text/event-stream".toList) "http://example.com/mcp".toList = ("sse", 1)
-    ∧ (fallback (.resp 200 "text/html".toList) (fun _ => .exc) "http://h/mcp/".toList).1 = .sse "http://h".toList
-    ∧ (fallback (.resp 200 "text/event-stream".toList) (fun _ => .exc) "http://h/mcp/".toList).1 = .http "http://h/mcp".toList
-    ∧ fallback .exc (fun _ => .exc) "ftp://h/mcp".toList = (.fail, false)
-    ∧ isStreamableHttpUrl "https://API.example/v1/MCP".toList = true
-    ∧ isStreamableHttpUrl "https://api.example/mcp/events".toList = false := by
+/-- non-vacuity, stated over the regenerated tables themselves (so that a change of an accepted
+status, content type or indicator in the source does not touch it): a POST probe answered with the
+first accepted status and content type works; with it Streamable HTTP is detected and chosen; a
+server that answers nothing gives `unknown` after all GET probes and the SSE fallback; an invalid
+URL is not probed at all and, when the derived SSE URL is invalid too, the function raises.
+(At the verified commit `probeUrls "http://example.com/mcp"` is `…/sse`, `http://example.co/sse` —
+`rstrip("/mcp")` strips a character SET, here the `m` of `.com` — and `…/mcp/sse`.) -/
+example :
+    let p : Probe := .resp (postStatuses.headD 0) (postTypes.headD "").toList
+    let g : Probe := .resp (getStatuses.headD 0) (getTypes.headD "").toList
+    let url := "http://h.test/mcp".toList
+    works postStatuses postTypes p = true ∧ works getStatuses getTypes g = true
+    ∧ detect p (fun _ => .exc) url = (resHttp, (probeUrls url).length)
+    ∧ detect p (fun _ => g) url = (resBoth, 1)
+    ∧ detect .exc (fun _ => .resp 404 []) url = (resUnknown, (probeUrls url).length)
+    ∧ (fallback p (fun _ => .exc) url).1 = .http (rstripSet httpUrlRstrip.toList url)
+    ∧ (fallback .exc (fun _ => g) url).1 = .sse (rstripSet sseUrlRstrip.toList (sseFallbackUrl url))
+    ∧ fallback p (fun _ => g) [] = (.fail, false)
+    ∧ isStreamableHttpUrl [] = false ∧ isSseUrl [] = false := by
   decide
 
 end detect
